@@ -59,6 +59,10 @@ def run(e: Engine, rep: Report):
     rep.rule('R1.10', 'a builtin used by a package __init__ is not '
              'shadowed by a submodule of the same name (importing '
              'slimta.queue.dict rebinds `dict` in slimta.queue)')
+    rep.rule('R1.11', 'no greenlet of the queue waits for a slot of a '
+             'bounded pool while occupying one on a cycle of the pool-order '
+             'graph (the handler that would settle, retry or bounce the '
+             'message never runs)')
     rep.not_decided += ['that retries eventually happen (scheduling '
                         'structure is C12)', 'behaviour of real redis / S3',
                         'what a custom relay returns']
@@ -80,6 +84,8 @@ def run(e: Engine, rep: Report):
     r18(e, rep)
     c11.n7(e, rep, 'R1.9')
     r110(e, rep)
+    from . import poolorder
+    poolorder.run(e, rep, 'R1.11')
     rep.floor('R1.2', 5, 'removal sites')
     rep.floor('R1.5', 3, 'backend uses of the index argument')
 
@@ -520,17 +526,17 @@ def r17(e: Engine, rep: Report):
     g = e.build(ctx)
     where = ctx.func.qname
     rep.functions.add(where)
-    # the per-recipient result variable: second element of the loop target
+    # the per-recipient result variable: value position of the .items() loop
+    from .c03 import items_loop_vars
     loop = None
+    lv = None
     for n in g.of_kind('iter'):
-        if isinstance(n.ast, ast.For) and isinstance(
-                n.ast.target, ast.Tuple) and len(n.ast.target.elts) == 2 \
-                and '.items()' in ast.unparse(n.ast.iter):
-            loop = n
+        if isinstance(n.ast, ast.For) and items_loop_vars(n.ast):
+            loop, lv = n, items_loop_vars(n.ast)
     if loop is None:
         rep.error('anchor vanished: `for rcpt, rcpt_res in results.items()`')
         return
-    rv = path_of(loop.ast.target.elts[1], loop.frame)
+    rv = '%s#%d' % (lv[1], loop.frame.id)
     reply_q = 'Reply'
     settle_alts = [(True, '%s is None' % rv),
                    (True, 'isinstance(%s, Reply)' % rv),
